@@ -361,7 +361,7 @@ package reedsolomon
 //@ func NewReedSolomonEncoder(field *GenericGF) (r *ReedSolomonEncoder)
 //@   property C04
 //@   requires field != nil && wfGF2(field) && 0 <= field.generatorBase && field.generatorBase <= 1
-//@   ensures r != nil && fresh(r) && wfEnc(r) && r.field == field
+//@   ensures r != nil && fresh(r) && wfEnc(r) && r.field == field && len(r.cachedGenerators) == 1 && fresh(r.cachedGenerators[0].coefficients)
 //@   modifies nothing
 
 //@ func (this *ReedSolomonEncoder) buildGenerator(degree int) (r *GenericGFPoly)
